@@ -622,7 +622,19 @@ impl Gen {
         if self.cfg.big {
             // keep tranches of layered orders within a factor 8 of their hidden part
             let h = obs.find(model::key(id)).map(model::hid).unwrap_or(0);
-            let q = (self.qty() / 2).max(h / 8);
+            let cur = obs.find(model::key(id)).map(model::vis).unwrap_or(0);
+            // a third of the amendments stay close to the current quantity (a small reduction
+            // or increase of a huge order)
+            let q = match self.rng.below(3) {
+                0 if cur > 2_000 => {
+                    let near = if self.rng.chance(2, 3) { cur - self.rng.range(1, 1_000) } else { cur.saturating_add(self.rng.range(1, 1_000)) };
+                    if near <= cur {
+                        return near.max(h / 8).max(1);
+                    }
+                    near
+                }
+                _ => (self.qty() / 2).max(h / 8),
+            };
             // an amendment upwards supplies quantity too
             if self.supplied + q as u128 > (1u128 << 64) - (1u128 << 40) {
                 return (h / 8).max(1);
